@@ -19,14 +19,14 @@ variable {α : Type} [Add α] [Sub α] [Mul α] [Div α] [Neg α] [NatCast α] [
 def NoAdjFib (l : List (Elem α)) : Prop :=
   List.IsChain (fun a b => ¬ (a.isFiber = true ∧ b.isFiber = true)) l
 
-theorem addInline_head (l : List (Elem α)) : (addInline l).head? = l.head? := by
+theorem addInline_head (m : Bool) (l : List (Elem α)) : (addInline m l).head? = l.head? := by
   cases l with
   | nil => simp [addInline]
   | cons x rest =>
     simp only [addInline]
     split <;> simp
 
-theorem addInline_noAdj (l : List (Elem α)) : NoAdjFib (addInline l) := by
+theorem addInline_noAdj (m : Bool) (l : List (Elem α)) : NoAdjFib (addInline m l) := by
   unfold NoAdjFib
   induction l with
   | nil => simp [addInline]
@@ -43,7 +43,7 @@ theorem addInline_noAdj (l : List (Elem α)) : NoAdjFib (addInline l) := by
       cases rest with
       | nil => simp [addInline]
       | cons y t =>
-        have hy : (addInline (y :: t)).head? = some y := by rw [addInline_head]; rfl
+        have hy : (addInline m (y :: t)).head? = some y := by rw [addInline_head]; rfl
         refine List.IsChain.cons ih ?_
         intro z hz
         rw [hy] at hz
@@ -52,30 +52,30 @@ theorem addInline_noAdj (l : List (Elem α)) : NoAdjFib (addInline l) := by
         cases x <;> cases y <;> simp [Elem.isFiber] at hx hyf
         exact hne _ _ _ _ _ rfl rfl
 
-theorem addInline_getLast (l : List (Elem α)) : (addInline l).getLast? = l.getLast? := by
+theorem addInline_getLast (m : Bool) (l : List (Elem α)) : (addInline m l).getLast? = l.getLast? := by
   induction l with
   | nil => simp [addInline]
   | cons x rest ih =>
     simp only [addInline]
     split
     · rename_i u p v q t
-      have hne : addInline (Elem.fiber v q :: t) ≠ [] := by
+      have hne : addInline m (Elem.fiber v q :: t) ≠ [] := by
         simp only [addInline]; split <;> simp
       rw [List.getLast?_cons_cons, List.getLast?_cons_cons, ← ih]
-      cases h : addInline (Elem.fiber v q :: t) with
+      cases h : addInline m (Elem.fiber v q :: t) with
       | nil => exact absurd h hne
       | cons a b => simp [List.getLast?_cons_cons]
     · cases rest with
       | nil => simp [addInline]
       | cons y t =>
-        have hne : addInline (y :: t) ≠ [] := by
+        have hne : addInline m (y :: t) ≠ [] := by
           simp only [addInline]; split <;> simp
-        cases h : addInline (y :: t) with
+        cases h : addInline m (y :: t) with
         | nil => exact absurd h hne
         | cons a b =>
           rw [List.getLast?_cons_cons, List.getLast?_cons_cons, ← h, ih]
 
-theorem addInline_sublist (l : List (Elem α)) : List.Sublist l (addInline l) := by
+theorem addInline_sublist (m : Bool) (l : List (Elem α)) : List.Sublist l (addInline m l) := by
   induction l with
   | nil => simp [addInline]
   | cons x rest ih =>
@@ -84,30 +84,30 @@ theorem addInline_sublist (l : List (Elem α)) : List.Sublist l (addInline l) :=
     · exact List.Sublist.cons_cons _ (List.Sublist.cons _ ih)
     · exact List.Sublist.cons_cons _ ih
 
-theorem addBooster_sublist (src : String) (sk : EndKind) (l : List (Elem α)) :
-    List.Sublist l (addBooster src sk l) := by
+theorem addBooster_sublist (src : String) (sk : EndKind) (m : Bool) (l : List (Elem α)) :
+    List.Sublist l (addBooster src sk m l) := by
   unfold addBooster
   split
   · exact List.Sublist.cons _ (List.Sublist.refl _)
   · exact List.Sublist.refl _
 
-theorem addPreamp_sublist (dst : String) (dk : EndKind) (l : List (Elem α)) :
-    List.Sublist l (addPreamp dst dk l) := by
+theorem addPreamp_sublist (dst : String) (dk : EndKind) (m : Bool) (l : List (Elem α)) :
+    List.Sublist l (addPreamp dst dk m l) := by
   unfold addPreamp
   split
   · exact List.sublist_append_left _ _
   · exact List.Sublist.refl _
 
-theorem addBooster_getLast (src : String) (sk : EndKind) (l : List (Elem α)) :
-    (addBooster src sk l).getLast? = l.getLast? := by
+theorem addBooster_getLast (src : String) (sk : EndKind) (m : Bool) (l : List (Elem α)) :
+    (addBooster src sk m l).getLast? = l.getLast? := by
   unfold addBooster
   split
   · simp [List.getLast?_cons_cons]
   · rfl
 
 /-- after `addBooster` a chain that starts at a ROADM does not start with a Fiber -/
-theorem addBooster_head (src : String) (l : List (Elem α)) :
-    ∀ e, (addBooster src .roadm l).head? = some e → e.isFiber = false := by
+theorem addBooster_head (src : String) (m : Bool) (l : List (Elem α)) :
+    ∀ e, (addBooster src .roadm m l).head? = some e → e.isFiber = false := by
   intro e he
   cases l with
   | nil => simp [addBooster] at he
@@ -118,8 +118,8 @@ theorem addBooster_head (src : String) (l : List (Elem α)) :
     | edfa u p => simp [addBooster] at he; subst he; rfl
 
 /-- after `addPreamp` a chain that ends at a ROADM does not end with a Fiber -/
-theorem addPreamp_getLast (dst : String) (l : List (Elem α)) :
-    ∀ e, (addPreamp dst .roadm l).getLast? = some e → e.isFiber = false := by
+theorem addPreamp_getLast (dst : String) (m : Bool) (l : List (Elem α)) :
+    ∀ e, (addPreamp dst .roadm m l).getLast? = some e → e.isFiber = false := by
   intro e he
   unfold addPreamp at he
   cases hl : l.getLast? with
@@ -178,8 +178,8 @@ def inlineNames : List (Elem α) → List String
     | .fiber u _, .fiber _ _ :: _ => inlineName u :: inlineNames rest
     | _, _ => inlineNames rest
 
-theorem addInline_uids (l : List (Elem α)) :
-    ((addInline l).map Elem.uid).Perm (l.map Elem.uid ++ inlineNames l) := by
+theorem addInline_uids (m : Bool) (l : List (Elem α)) :
+    ((addInline m l).map Elem.uid).Perm (l.map Elem.uid ++ inlineNames l) := by
   induction l with
   | nil => simp [addInline, inlineNames]
   | cons x rest ih =>
@@ -192,6 +192,45 @@ theorem addInline_uids (l : List (Elem α)) :
       exact List.perm_middle.symm
     · simp only [List.map_cons, List.cons_append]
       exact List.Perm.cons _ ih
+
+
+/-- no amplifier among the elements -/
+def NoAmp (l : List (Elem α)) : Prop := ∀ e ∈ l, e.isEdfa = false
+
+theorem hasMulti_noAmp (l : List (Elem α)) (h : NoAmp l) : hasMulti l = false ∧ hasSingle l = false := by
+  unfold hasMulti hasSingle
+  constructor
+  · rw [List.any_eq_false]
+    intro e he
+    have := h e he
+    cases e <;> simp [Elem.isEdfa, Elem.isMulti] at this ⊢
+  · rw [List.any_eq_false]
+    intro e he
+    have := h e he
+    cases e <;> simp [Elem.isEdfa, Elem.isSingle] at this ⊢
+
+/-- whatever `addInline m` adds is an amplifier of kind `m`; everything else was there before -/
+theorem addInline_kinds (m : Bool) (l : List (Elem α)) :
+    ∀ e ∈ addInline m l, e ∈ l ∨ (e.isEdfa = true ∧ e.isMulti = m) := by
+  induction l with
+  | nil => intro e he; simp [addInline] at he
+  | cons x rest ih =>
+    intro e he
+    simp only [addInline] at he
+    split at he
+    · simp only [List.mem_cons] at he
+      rcases he with he | he | he
+      · exact Or.inl (by simp [he])
+      · subst he; exact Or.inr (by simp [Elem.isEdfa, Elem.isMulti, newAmp])
+      · rcases ih e he with h | h
+        · exact Or.inl (List.mem_cons_of_mem _ h)
+        · exact Or.inr h
+    · simp only [List.mem_cons] at he
+      rcases he with he | he
+      · exact Or.inl (by simp [he])
+      · rcases ih e he with h | h
+        · exact Or.inl (List.mem_cons_of_mem _ h)
+        · exact Or.inr h
 
 end
 end Gnpy.Chain
